@@ -35,16 +35,26 @@ RULE = ('seq: Hypothesis lists of up to 40 ops [put_nowait | put(timeout) | '
         'Full/Empty was hit. Distinct = distinct canonical JSON of the case.')
 ASSUMPTIONS = [
     'multi-party interleavings are whatever the OS produces (fork start '
-    'method; process parties are started through billiard.Process)',
+    'method only; process parties are started through billiard.Process from '
+    'a forked arena process that is killed with its whole process group)',
     'a get that does not deliver an item the model holds within 15 s counts '
-    'as a lost item; consumers that receive nothing for 20 s after every '
-    'producer has finished and flushed count as lost items',
-    'timed get lower bound is 0.9*t - 5 ms (poll truncates to whole ms)',
+    'as a lost item (part seq)',
+    'part multi: "lost" is also concluded when every producer has finished '
+    'and flushed, every consumer is running, and no consumer receives '
+    'anything during 20 s of observed polling time (C16/stalled, reported '
+    'with the stacks of all parties); a failing multi-party execution must '
+    'fail again on re-execution to count and is kept as '
+    'replays/C16-execution-<hash>.json either way',
+    'timed get lower bound is 0.9*t - 5 ms (poll truncates to whole ms); '
+    'no upper bound on any wait is asserted',
     'the capacity clause in part multi is a lower bound on the number of '
     'waiting items computed from thread parties only (all consumers threads)',
     'SimpleQueue in part seq: a put that could overflow the 64 KiB pipe is '
     'made from a helper thread while the main thread drains',
-    'mutants (quick tier, seed 1): see tools/mutants.py C16',
+    'the checking process calls gc.freeze() before its first fork so that '
+    'forked parties do not spend seconds in copy-on-write garbage collection',
+    'mutants: 10/10 killed in the quick tier at seed 1 (mutants/C16-*.patch); '
+    'the three lock mutants also at seeds 2 and 3',
 ]
 SHARDS = {'quick': 8, 'thorough': 16}
 WALL_LIMIT = {'quick': 600, 'thorough': 3600}
@@ -513,6 +523,23 @@ def multi_cases():
 BACKSTOP = 300.0    # s; the arena has its own, shorter, deadlines
 
 
+_FROZEN = []
+
+
+def _freeze_heap():
+    """Move everything this (large, Hypothesis-laden) process has allocated
+    out of the garbage collector's sight before the first fork.  Without it
+    a forked child that happens to run a full collection touches every page
+    of the inherited heap (copy-on-write) and can spend seconds of CPU before
+    it runs its first line - observed as 6-20 s late starters on a loaded
+    box."""
+    import gc
+    if not _FROZEN:
+        gc.collect()
+        gc.freeze()
+        _FROZEN.append(True)
+
+
 def _run_arena(case):
     """fork the arena, wait for it, kill its whole process group;
     returns (result-or-None, arena traceback-or-None, stragglers)"""
@@ -521,6 +548,7 @@ def _run_arena(case):
     import billiard.popen_fork
     import billiard.queues
     import billiard.synchronize  # noqa
+    _freeze_heap()
     tmp = tempfile.mkdtemp(prefix='verif-c16-')
     try:
         sys.stdout.flush()
@@ -585,6 +613,25 @@ def _run_arena(case):
         return res, err, stragglers
     finally:
         shutil.rmtree(tmp, ignore_errors=True)
+
+
+def _timeline(res):
+    """seconds since the arena started, for the diagnosis of a stall"""
+    t = res.get('times') or {}
+    t0 = t.get('arena_start', 0.0)
+
+    def rel(x):
+        return 'n/a' if x is None else '%.2f' % (x - t0)
+    out = ['arena: ' + ' '.join('%s=%s' % (k, rel(v)) for k, v in
+                                sorted(t.items(), key=lambda kv: kv[1]))]
+    for who in ('producers', 'consumers'):
+        for k, rep in enumerate(res.get(who, [])):
+            out.append('%s %d: %s' % (who[:-1], k, ' '.join(
+                '%s=%s' % (f, rel(rep.get(f)))
+                for f in ('t_start', 't_last', 't_end') if f in rep) +
+                (' (no report)' if rep.get('missing') else '') +
+                ' exitcode=%r' % (rep.get('exitcode'),)))
+    return '\n'.join(out)
 
 
 def execute_multi(case):
@@ -663,11 +710,12 @@ def execute_multi(case):
         raise HarnessError('arena aborted without a party error: %r' % (res,))
     if phase == 'stalled':
         return bad('C16/stalled', 'every producer finished and flushed, yet '
-                   'no consumer received anything for %gs; %d of %d items '
+                   'no consumer (all running) received anything for %gs; %d of %d items '
                    'received (process consumers report only at their end)\n'
-                   'threads of the arena process:\n%s' % (
+                   '%s\nthreads of the arena process:\n%s' % (
                        tg.STALL_DEADLINE, len(seen), sum(plan),
-                       res.get('stacks', '')), labels=sorted(labels))
+                       _timeline(res), res.get('stacks', '')),
+                   labels=sorted(labels))
     if phase != 'done':
         return inconclusive('arena phase %s' % phase, sorted(labels))
 
